@@ -281,6 +281,39 @@ Judge31(o) ==
   ELSE IF ~p.sres /\ d = {"resume"} THEN (IF o.presented THEN "no-resume-under-current-key" ELSE "ticket-not-presented")
   ELSE "ok"
 
+(* Automatic-rotation histories (harness/cmd/c31 runa): connection times `times` (hours) on one
+   server Config; the ticket issued at connection `issue` is presented at the last connection, as
+   issued or replaced by a ticket sealed under key material of the adversary's choosing (`forge`).
+   The acceptable keys are AutoKeysAfter(<<>>, times); the ticket's key is the newest key at the
+   issuing connection.  TicketDemand as everywhere: a forgery is never authentic. *)
+Demand31A(o) ==
+  LET n == Len(o.times)
+      all == AutoKeysAfter(<<>>, o.times)
+      ikey == Head(AutoKeysAfter(<<>>, SubSeq(o.times, 1, o.issue)))
+      idx == IndexOf(all, ikey)
+      age == o.times[n] - o.times[o.issue]
+  IN IF o.forge # "none" THEN {"full"}
+     \* a ticket older than the seven-day ticket lifetime may be refused whatever its key
+     ELSE IF age > 168 THEN (IF idx = 0 THEN {"full"} ELSE {"full", "resume"})
+     ELSE TicketDemand(TRUE, idx, TRUE, TRUE)
+
+Judge31A(o) ==
+  LET i == o.issued  p == o.present  d == Demand31A(o) IN
+  IF i.cpanic \/ i.spanic \/ i.chang \/ i.shang \/ p.cpanic \/ p.spanic \/ p.chang \/ p.shang THEN "panic-or-hang"
+  ELSE IF ~o.all_full \/ ~(i.cdone /\ i.sdone) \/ o.ticket_len = 0 THEN "issue-failed"
+  ELSE IF (p.sres \/ p.cres) /\ "resume" \notin d THEN
+       (IF o.forge # "none" THEN "resumed-forged-ticket" ELSE "resumed-unauthentic-ticket")
+  ELSE IF ~(p.cdone /\ p.sdone /\ p.dataok /\ p.ekmeq) THEN "ticket-caused-failure"
+  ELSE IF p.cres # p.sres THEN "disagreement"
+  ELSE IF p.sres /\ (p.svers # i.svers \/ p.ssuite # i.ssuite) THEN "resumed-with-other-parameters"
+  ELSE IF ~p.sres /\ d = {"resume"} THEN (IF o.presented THEN "no-resume-under-current-key" ELSE "ticket-not-presented")
+  ELSE "ok"
+
+Facts31A(o) ==
+  [kind |-> Judge31A(o), vers |-> o.vers, forge |-> o.forge, demand |-> Demand31A(o), auto |-> TRUE,
+   keys_at_present |-> Len(AutoKeysAfter(<<>>, o.times)),
+   keyidx |-> IndexOf(AutoKeysAfter(<<>>, o.times), Head(AutoKeysAfter(<<>>, SubSeq(o.times, 1, o.issue))))]
+
 Facts31(o) ==
   [kind |-> Judge31(o), vers |-> o.vers, mut |-> o.mut.kind, part |-> o.mut.part, change |-> o.change,
    keyidx |-> IndexOf(ApplyHist(o.keys0, o.hist), Head(o.keys0)), changed |-> o.changed,
@@ -456,8 +489,12 @@ Tamper32(o) ==
 
 Judge32(o) ==
   LET b == o.obs IN
-  IF b.cpanic \/ b.spanic THEN "panic"
-  ELSE IF b.chang \/ b.shang THEN "blocked-after-close"
+  IF b.cpanic \/ b.spanic \/ o.calls.panic # "" THEN "panic"
+  \* data-phase injection: Read, Write, CloseWrite and Close were issued after a genuine
+  \* post-handshake message under the given transport state; once the transport is closed every one
+  \* of them has returned
+  ELSE IF b.chang \/ b.shang \/ "hang" \in {o.calls.read, o.calls.write, o.calls.closewrite, o.calls.close}
+       THEN "blocked-after-close"
   ELSE IF ~o.log_ok THEN "handshake-log-panic"
   ELSE IF o.fired /\ o.kind = "split" /\ ~(b.cdone /\ b.sdone /\ b.dataok) THEN "tcp-segmentation-broke-handshake"
   ELSE IF ~o.fired /\ o.kind # "stream" /\ ~(b.cdone /\ b.sdone /\ b.dataok) THEN "honest-run-failed"
@@ -465,7 +502,7 @@ Judge32(o) ==
   ELSE "ok"
 
 Facts32(o) ==
-  [kind |-> Judge32(o), fault |-> o.kind, sub |-> o.sub, dir |-> o.dir, idx |-> o.idx, pos |-> o.pos,
+  [kind |-> Judge32(o), fault |-> o.kind, sub |-> o.sub, dir |-> o.dir, idx |-> o.idx, pos |-> o.pos, calls |-> o.calls,
    rtype |-> o.rtype, vers |-> o.vers, suite |-> o.suite, auth |-> o.auth]
 
 (* Judge of one observed connection of an honest or downgrade-tampered run (C24).
